@@ -288,7 +288,12 @@ def measure_pair(p):
     try:
         sa = sort if sort != 'mixed' else ('source' if g.is_source(p['a']) else 'feature')
         sb = sort if sort != 'mixed' else ('source' if g.is_source(p['b']) else 'feature')
-        a = construct(sa, p['a'], False)
+        if p.get('foreign'):
+            # the object built, hashed and pickled by ANOTHER interpreter (other hash seed), compared with a local twin
+            import base64
+            a = pickle.loads(base64.b64decode(p['foreign']))
+        else:
+            a = construct(sa, p['a'], False)
         b = construct(sb, p['b'], True)
     except Exception as exc:  # pylint: disable=broad-except
         return None, f'{type(exc).__name__}'  # the changed term is not constructible: no pair
@@ -440,6 +445,29 @@ def trace_identity(chk, terms, extra, procs):
                      {'kind': 'pair', 'pair': pairs[i], 'primary': o1, 'stressed': o2},
                      classify(pairs[i], [c for c, keys in (('pickle', ('x_pk', 'pk_self', 'pk_b')), ('pickle_after_use', ('u_ok',)))
                                          if set(keys) & set(changed)] if pickling else (), o1['note'] + o2['note']))
+    # identity survives pickling ACROSS interpreters: identical pairs whose first object was built, hashed and pickled in a
+    # process with another hash seed
+    identical = [p for p in pairs if p['label'] == 'identical' and g.canon(p['a']) == g.canon(p['b'])]
+    identical = identical[::max(1, len(identical) // (150 if chk.quick else 1500))]
+    fpath = common.write_json(identical, 'c08-foreign-in.json')
+    done = subprocess.run([sys.executable, '-W', 'ignore', '-m', 'harness.drivers.C08', '--foreign', fpath,
+                           os.path.abspath('c08-foreign-out.json')], env=dict(os.environ, PYTHONHASHSEED='777'),
+                          capture_output=True, text=True, timeout=3000)
+    if done.returncode != 0:
+        raise tlc.MachineryError(f'foreign pickling failed: {done.stderr[-1500:]}')
+    with open('c08-foreign-out.json') as fh:
+        blobs = json.load(fh)
+    foreign = 0
+    for p, blob in zip(identical, blobs):
+        if not blob:
+            continue
+        o, why = measure_pair(dict(p, foreign=blob))
+        if o is None:
+            continue
+        foreign += 1
+        obs.append(dict({k: v for k, v in o.items() if k != 'note'}, a=p['a'], b=p['b']))
+        meta.append((p, o, 'pickled-by-another-interpreter'))
+    chk.extra['foreign_pickles'] = foreign
     n_real = len(obs)
     # binding self-test on synthetic observations (independent of how the implementation behaves): a consistent
     # identical pair and a consistent different pair are accepted, each corruption of them is rejected
@@ -678,7 +706,31 @@ def replay(chk, path):
     return 1
 
 
+def foreign_pickles(pairs):
+    """Run in another interpreter: build the first term of every pair, use it (hash it), pickle it."""
+    import base64
+    out = []
+    for p in pairs:
+        try:
+            sort = p['sort'] if p['sort'] != 'mixed' else ('source' if g.is_source(p['a']) else 'feature')
+            obj = construct(sort, p['a'], False)
+            hash(obj)
+            {obj: 1}  # pylint: disable=expression-not-assigned
+            out.append(base64.b64encode(pickle.dumps(obj)).decode())
+        except Exception:  # pylint: disable=broad-except
+            out.append(None)
+    return out
+
+
 if __name__ == '__main__':
+    if len(sys.argv) == 4 and sys.argv[1] == '--foreign':
+        sys.path.insert(0, common.REPO)
+        import logging
+        logging.disable(logging.INFO)
+        with open(sys.argv[2]) as fh_in:
+            todo = json.load(fh_in)
+        with open(sys.argv[3], 'w') as fh_out:
+            json.dump(foreign_pickles(todo), fh_out)
     if len(sys.argv) == 4 and sys.argv[1] == '--measure':
         sys.path.insert(0, common.REPO)
         with open(sys.argv[2]) as fh_in:
